@@ -177,3 +177,6 @@ from contracts.any_units import adapt_classes_any_unit, is_action_value_list_uni
 UNITS += [adapt_classes_any_unit("C02"), is_action_value_list_unit("C02")]
 from contracts.any_units import is_single_subclass_typehint_unit, is_subclass_typehint_unit, is_supported_typehint_unit  # noqa: E402
 UNITS += [is_supported_typehint_unit("C02"), is_subclass_typehint_unit("C02"), is_single_subclass_typehint_unit("C02")]
+
+from contracts.share import carried as _carried  # noqa: E402
+UNITS += _carried("C02")
